@@ -1,6 +1,38 @@
+import Model.Paging
 import Driver.Util
 namespace Driver.C15
-/-- placeholder: replaced when the property's model is built -/
-def step (_ : Unit) (_ : List String) : Unit × String := ((), "unimplemented")
+open Util Paging
+
+/-- pages: `;`-separated, rows `,`-separated ints, `E` = failed fetch, `-` = empty page; an optional
+    `@p` suffix gives the prefetch position (ignored by the functional model: it only moves the fetch) -/
+def parsePage (s : String) : Option (Option (List Int)) :=
+  let body := (s.splitOn "@").headD ""
+  if body == "E" then some none
+  else if body == "-" || body == "" then some (some [])
+  else ((body.splitOn ",").mapM (fun (x : String) => x.toInt?)).map some
+
+def parsePages (s : String) : Option (List (Option (List Int))) := (s.splitOn ";").mapM parsePage
+
+def showRows (l : List Int) : String := if l.isEmpty then "-" else ",".intercalate (l.map toString)
+
+/-- expected facts about the source (checked on the AST by the harness) -/
+def astExpect : String :=
+  "more-pages-guard=true copies-query=true page-state-from-response=true newqry-assignments=2 next-iter=true pos-clamp=true request-carries-state=true manual-disables-auto=true fetch-once=true async-once=true scan-switches=true scanner-switches=true"
+
+def step (_ : Unit) (ws : List String) : Unit × String :=
+  ((), match ws with
+  | ["iter", consumer, pages] =>
+    match parsePages pages with
+    | none => "bad-op"
+    | some ps =>
+      let failAt := ps.findIdx? (·.isNone)
+      let rows := ps.map (fun p => p.getD [])
+      let o := iterate (script rows failAt "fetch failed") (fun _ => 0) false (ps.length + 1) none
+      let err := match o.err with | some e => e | none => "nil"
+      if consumer == "slicemap" && o.err.isSome then s!"rows=nil err={err}"
+      else s!"rows={showRows o.rows} err={err}"
+  | ["ast", "paging"] => astExpect
+  | _ => "bad-op")
+
 def init : Unit := ()
 end Driver.C15
